@@ -1,4 +1,138 @@
-(* placeholder until the proofs land *)
-From FluentV Require Import Syntax.Render Syntax.ParserModel.
-Theorem C02_placeholder : True.
-Proof. exact Logic.I. Qed.
+(* Props/C02.v — Well-formed FTL parses to exactly the tree the grammar assigns.
+   Only statements here; proofs are in Syntax/ParseLemmas.v and Syntax/RoundTrip.v.
+   The grammar is Syntax/Render.v: `render cs t` prints the tree t with the layout choices cs, and
+   `wf_resource t` says that t is well-formed.
+
+   STATED ONLY (a Definition, Prop-valued):
+     C02_roundtrip_statement      parse (render cs t) gives t back (after joining adjacent text elements),
+                                  without errors, for every well-formed t and every layout cs
+   and, as the code stands, it is FALSE: finding D7 (a comment whose last line is empty, printed as the last
+   line of the file without a line end, loses that line) is a counterexample, proved here:
+     C02_roundtrip_statement_refuted_by_D7
+   PROVED FOR THE FRAGMENT simple_resource (RoundTrip.v), for ALL layouts cs:
+     C02_roundtrip_simple_partial the statement restricted to the fragment
+     C02_simple_is_wellformed     the fragment lies inside wf_resource
+     C02_layout_independent_simple_partial   the parsed tree does not depend on the layout
+   The fragment (RoundTrip.simple_resource): every entry is
+     * a stand-alone comment of any of the three levels (#, ##, ###): at least one line; no CR LF in a line;
+       the first byte of a line is not a UTF-8 continuation byte; a line is empty or contains a byte other
+       than a space; the LAST line is not empty (D7); or
+     * a message or a term without attached comment; its value and the value of each of its attributes is
+       ONE text element of ONE line (no '{' '}' CR LF in it, no space at either end, not empty, first byte not
+       a UTF-8 continuation byte); a message may have no value if it has attributes; identifiers well-formed.
+   All layouts render can choose for such trees are covered: 0-2 spaces before and after '=', inline or
+   block start of each value (with an optional blank line and any indentation), attribute lines indented by
+   1-3 spaces, 0-2 blank lines at the start, the blank lines the grammar requires after a comment (so that it
+   neither attaches to the next message nor merges with the next comment) plus 0-2 more between any two
+   entries, 0-2 spaces on blank lines, LF or CRLF at every line end, final line end absent / present /
+   followed by a blank line.  (The proof covers more: any number of spaces and blank lines.)
+   EXCLUDED from the fragment: comments attached to a message or term, comments whose last line is empty or
+   that have a whitespace-only non-empty line, multi-line text, placeables (hence select expressions,
+   references, literals, call arguments), Junk.
+   Examples (vm_compute) for trees outside the fragment: C02_example_xxx.                            *)
+From FluentV Require Import Base.Bytes Base.Outcome Base.Utf8 Syntax.Ast.
+From FluentV Require Import Syntax.ParserModel Syntax.Render Syntax.TreeNorm Syntax.RoundTrip.
+
+(* "Every resource that is well-formed under the Fluent 1.0 grammar parses without errors or Junk and
+   yields exactly the entries the grammar assigns to it ...  The tree does not depend on layout choices
+   the grammar declares insignificant."   (The parser takes a Rust str, hence the UTF-8 premise.) *)
+Definition C02_roundtrip_statement : Prop :=
+  forall cs t, wf_resource t = true -> utf8_valid (render cs t) = true ->
+  exists t', parse (render cs t) = Done (t', []) /\ map join_entry t' = t.
+
+(* the same statement for the trees of the fragment (no UTF-8 premise needed there) *)
+Theorem C02_roundtrip_simple_partial :
+  forall cs t, simple_resource t = true ->
+  exists t', parse (render cs t) = Done (t', []) /\ map join_entry t' = t.
+Proof.
+  intros cs t Ht. exists t. split; [apply parse_render_simple, Ht | apply simple_resource_join, Ht].
+Qed.
+
+Theorem C02_simple_is_wellformed : forall t, simple_resource t = true -> wf_resource t = true.
+Proof. exact simple_resource_wf. Qed.
+
+(* layout independence on the fragment *)
+Theorem C02_layout_independent_simple_partial :
+  forall cs1 cs2 t, simple_resource t = true -> parse (render cs1 t) = parse (render cs2 t).
+Proof. intros cs1 cs2 t Ht. rewrite !parse_render_simple by exact Ht. reflexivity. Qed.
+
+(* D7: the well-formed tree "one comment with one empty line", printed without a final line end, is "#";
+   the parser returns a comment with NO line. *)
+Theorem C02_roundtrip_statement_refuted_by_D7 : ~ C02_roundtrip_statement.
+Proof.
+  intros H. destruct (H [] [CommentEntry (Comment [[]])] eq_refl eq_refl) as [t' [Hp Hj]].
+  vm_compute in Hp. injection Hp as <-. vm_compute in Hj. discriminate Hj.
+Qed.
+
+(* ---------------------------------------------------------------------------------------------- *)
+(* Non-vacuity, and trees OUTSIDE the fragment under several layouts (by computation)              *)
+
+Local Notation b := bytes_of_string.
+
+Definition roundtrips_under (cs : choices) (t : resource) : Prop :=
+  wf_resource t = true /\ exists t', parse (render cs t) = Done (t', []) /\ map join_entry t' = t.
+
+Local Ltac rt := split; [vm_compute; reflexivity | eexists; split; vm_compute; reflexivity].
+
+(* inside the fragment: a message and a term *)
+Definition ex_simple : resource :=
+  [ResourceComment (Comment [b "Resource"; []; b "comment"]);
+   GroupComment (Comment [b "a group"]);
+   GroupComment (Comment [b "another group"]);
+   CommentEntry (Comment [b "free, not attached"]);
+   Message (b "hello") (Some (Pattern [TextElement (b "Hello, world!")]))
+           [Attribute (b "title") (Pattern [TextElement (b "*Hi*")]); Attribute (b "x-y") (Pattern [TextElement (b ".dot")])] None;
+   Message (b "only-attrs") None [Attribute (b "a") (Pattern [TextElement (b "b")])] None;
+   Term (b "brand") (Pattern [TextElement (b "[Fluent]")]) [] None;
+   CommentEntry (Comment [b "the end"])].
+Example C02_example_simple_in_fragment : simple_resource ex_simple = true.
+Proof. vm_compute. reflexivity. Qed.
+(* ... and one concrete layout of it, by computation (the theorem gives all of them) *)
+Example C02_example_simple_layout :
+  roundtrips_under [2;3;1;3;0;3;2;2;3;1;1;3;2;0;3;1;2;2;1;3;3;2;1;0;1;2;3;3;2;1;2;2;3;0;1;3;2;2;1;1;3] ex_simple.
+Proof. rt. Qed.
+
+(* a select expression with a default variant, a term reference with call arguments, an attribute *)
+Definition ex_select : resource :=
+  [Message (b "emails")
+     (Some (Pattern [TextElement (b "You have ");
+                     PlaceableElement (Select (VariableReference (b "n"))
+                        [Variant (KeyIdentifier (b "one")) (Pattern [TextElement (b "one email")]) false;
+                         Variant (KeyIdentifier (b "other"))
+                           (Pattern [PlaceableElement (Inline (FunctionReference (b "NUMBER")
+                                        (CallArguments [VariableReference (b "n")]
+                                           [NamedArgument (b "style") (StringLiteral (b "x"))])));
+                                     TextElement (b " emails from ");
+                                     PlaceableElement (Inline (TermReference (b "brand") None
+                                        (Some (CallArguments [] [NamedArgument (b "case") (NumberLiteral (b "1.5"))]))))]) true])]))
+     [Attribute (b "title") (Pattern [TextElement (b "Inbox")])]
+     (Some (Comment [b "about mail"; []; b "second"]))].
+Example C02_example_select_1 : roundtrips_under [] ex_select.
+Proof. rt. Qed.
+Example C02_example_select_2 : roundtrips_under [2;1;2;3;1;0;2;1;3;2;2;1;4;3;0;3;1;2;2;4;1;3;3;0;2;1;1;2;3;4;0;1;2;3;2;1;0;3;3;2;1] ex_select.
+Proof. rt. Qed.
+Example C02_example_select_3 : roundtrips_under [1;3;3;2;2;2;3;4;4;3;2;1;1;1;2;2;3;3;4;4;0;0;1;2;3;3;3;2;2;1;4;4;2;2;3;1;3;2;3;3;3;1;2;4;3;2;1;3] ex_select.
+Proof. rt. Qed.
+
+(* a multi-line pattern with an indented line, an inner blank line and a line that starts with a placeable *)
+Definition ex_multiline : resource :=
+  [ResourceComment (Comment [b "resource"]);
+   GroupComment (Comment [b "group"]);
+   CommentEntry (Comment [b "free"]);
+   Term (b "t")
+     (Pattern [TextElement (b "first" ++ [10%N] ++ b "  indented" ++ [10; 10]%N ++ b "last ");
+               PlaceableElement (Inline (MessageReference (b "m") (Some (b "a"))));
+               TextElement [10%N];
+               PlaceableElement (Inline (Placeable (Inline (StringLiteral (b "A{")))))])
+     [] None].
+Example C02_example_multiline_1 : roundtrips_under [] ex_multiline.
+Proof. rt. Qed.
+Example C02_example_multiline_2 : roundtrips_under [0;3;2;3;1;3;2;3;0;3;1;2;2;3;1;1;3;2;2;3;3;1;2;3;0;3;1;3;2;3;3;3;1;2;3;3] ex_multiline.
+Proof. rt. Qed.
+Example C02_example_multiline_3 : roundtrips_under [2;1;3;2;2;3;1;1;3;0;2;3;3;2;1;2;3;1;1;1;3;2;2;2;3;1;0;1;3;3;2;2;1;3;2;2;1;1;3;3;2] ex_multiline.
+Proof. rt. Qed.
+
+(* the layouts really differ *)
+Example C02_example_layouts_differ :
+  render [] ex_select <> render [2;1;2;3;1;0;2;1;3;2;2;1;4;3;0;3;1;2;2;4;1;3;3;0;2;1;1;2;3;4;0;1;2;3;2;1;0;3;3;2;1] ex_select.
+Proof. vm_compute. discriminate. Qed.
